@@ -30,6 +30,14 @@ fn v(x: &str, cfg: Cfg, origin: &str, oracle: &str, detail: String) -> Violation
 
 /// Observe one call of both entry points. Pushes violations; returns whether the input was erroneous.
 pub fn observe(x: &str, cfg: Cfg, origin: &str, acc: &mut Acc) -> bool {
+    // breadcrumb for the supervising process, should one of the calls below abort the whole process
+    let prev = fmtx::crumb_set(x, cfg);
+    let r = observe_inner(x, cfg, origin, acc);
+    fmtx::crumb_restore(prev);
+    r
+}
+
+fn observe_inner(x: &str, cfg: Cfg, origin: &str, acc: &mut Acc) -> bool {
     let t0 = util::thread_cpu_ns();
     let erroneous = match fmtx::guarded(|| typst_syntax::parse(x).erroneous()) {
         Ok(e) => e,
@@ -380,5 +388,65 @@ pub fn ladder_violated(extra: &serde_json::Value, cfg: Cfg) -> Option<bool> {
         WorkerOutcome::Ok { .. } => Some(false),
         WorkerOutcome::Timeout | WorkerOutcome::Other(_) => None,
         _ => Some(true),
+    }
+}
+
+
+// ------------------------------------------------------------------------------------------------
+// aborts of the in-process workload (allocation failure, stack exhaustion): confirmation in an isolated worker
+
+/// `tyv worker-crash <width> <tab> <reorder>`: stdin = source. Calls both entry points on a thread with the same stack size
+/// as the check's worker threads. Exit 0 when the calls return (a caught panic included), killed by a signal otherwise.
+pub fn worker_crash_main(args: &[String]) -> i32 {
+    let w: usize = args[0].parse().unwrap();
+    let t: usize = args[1].parse().unwrap();
+    let r = args[2] == "1";
+    let mut text = String::new();
+    use std::io::Read;
+    if std::io::stdin().read_to_string(&mut text).is_err() {
+        return 4;
+    }
+    let h = std::thread::Builder::new().stack_size(64 << 20).spawn(move || {
+        let _ = fmtx::fmt(&text, Cfg::new(w, t, r));
+        let _ = fmtx::guarded(|| typstyle_core::format_with_width(&text, w));
+    });
+    match h {
+        Ok(h) => {
+            let _ = h.join();
+            println!("RETURNED");
+            0
+        }
+        Err(_) => 4,
+    }
+}
+
+/// Some((died, how)): does formatting `text` alone, in a fresh process, kill that process?
+pub fn dies_in_isolation(text: &str, cfg: Cfg) -> Option<(bool, String)> {
+    use std::io::Write;
+    use std::os::unix::process::ExitStatusExt;
+    let exe = std::env::current_exe().ok()?;
+    let mut child = Command::new(exe)
+        .args(["worker-crash", &cfg.width.to_string(), &cfg.tab.to_string(), if cfg.reorder { "1" } else { "0" }])
+        .stdin(Stdio::piped())
+        .stdout(Stdio::piped())
+        .stderr(Stdio::piped())
+        .env_remove("TYV_CRUMB")
+        .spawn()
+        .ok()?;
+    let mut stdin = child.stdin.take()?;
+    let bytes = text.as_bytes().to_vec();
+    let feeder = std::thread::spawn(move || {
+        let _ = stdin.write_all(&bytes);
+    });
+    let out = child.wait_with_output().ok()?;
+    let _ = feeder.join();
+    let stderr = String::from_utf8_lossy(&out.stderr);
+    let first = stderr.lines().find(|l| !l.trim().is_empty()).unwrap_or("").to_string();
+    if let Some(sig) = out.status.signal() {
+        return Some((true, format!("signal {} ({})", sig, util::clip(&first, 160))));
+    }
+    match out.status.code() {
+        Some(0) => Some((false, "returned".into())),
+        _ => None,
     }
 }
